@@ -199,6 +199,12 @@ pub open spec fn first_chunk_files(rc0: Seq<RecvRec>, rc: Seq<RecvRec>, pos0: in
     && forall|i: int| rc0.len() <= i < rc.len() ==> (#[trigger] rc[i]).at >= pos0 && (rc[i].at == pos0 && rc[i].n > 0 ==> i == rc0.len())
 }
 // ---- R19 targets (assumed: the adapter expressions mean what these contracts say)
+// R19 target: iov_lens.iter().sum() (REQUIRES is the absence of overflow: `sum` panics / wraps otherwise)
+#[verifier::external_body]
+pub fn sum_of_lens(v: &Vec<usize>) -> (r: usize)
+    requires sum_lens(v@, v@.len() as int) <= usize::MAX
+    ensures r == sum_lens(v@, v@.len() as int)
+{ v.iter().sum() }
 // R19 target: iovs.iter().map(|iov| iov.len()).collect() is the list of lengths; slice lengths fit isize (A-SLICE)
 #[verifier::external_body]
 pub fn iov_lens_of(iovs: &[&[u8]]) -> (r: Vec<usize>)
